@@ -703,6 +703,12 @@ func (fr *Frame) appendBuiltin(c *ssa.CallCommon, args []SV, st *State, g string
 		}
 		fc.emit(fmt.Sprintf("(assert (forall ((k Int)) (! (=> (and (<= 0 k) (< k %s)) (= (select %s %s) %s)) :pattern ((select %s %s)))))",
 			addLen, nb, idx(ro, "(+ "+slen(s.t)+" k)"), moreAt, nb, idx(ro, "(+ "+slen(s.t)+" k)")))
+		if tc.sortOf(more.typ) != "Str" {
+			// the same fact in absolute-index form (a = len(s) + k), so that a read of the new block at ANY index term triggers it
+			// (the pattern above only matches index terms of the syntactic form len(s) + k)
+			fc.emit(fmt.Sprintf("(assert (forall ((a Int)) (! (=> (and (<= %s a) (< a (+ %s %s))) (= (select %s %s) (select (select %s %s) %s))) :pattern ((select %s %s)))))",
+				slen(s.t), slen(s.t), addLen, nb, idx(ro, "a"), heap, sarr(more.t), idx(soff(more.t), "(- a "+slen(s.t)+")"), nb, idx(ro, "a")))
+		}
 		// the common one-element case gets a ground instance
 		fc.emit(fmt.Sprintf("(assert (=> (= %s 1) (= (select %s %s) %s)))", addLen, nb, idx(ro, slen(s.t)), strings.ReplaceAll(moreAt, " k)", " 0)")))
 	}
